@@ -11,7 +11,7 @@ from gen import L, R, C
 from props import c13
 
 DEFS = ["plain", "target", "other", "undef", "plaincmd+target", "plaincmd+other"]
-REFS = ["direct", "word", "via_used", "via_unused", "nowhere", "direct+word", "direct+via_used"]
+REFS = ["direct", "word", "via_used", "via_unused", "nowhere", "direct+word", "direct+via_used", "via_chain"]
 
 
 def structure(names_status, shell, rnd=None):
@@ -20,7 +20,7 @@ def structure(names_status, shell, rnd=None):
     items = [L("go")]
     defs, twin = [], []
     for k, (nm, (dstat, rstat)) in enumerate(names_status):
-        reach = rstat in ("direct", "word", "via_used", "direct+word", "direct+via_used")
+        reach = rstat in ("direct", "word", "via_used", "direct+word", "direct+via_used", "via_chain")
         mine = []
         if dstat == "plain":
             mine.append((nm, "", ("alt", [L("%s1" % nm.lower()), L("%s2" % nm.lower())])))
@@ -43,6 +43,11 @@ def structure(names_status, shell, rnd=None):
         if rstat in ("via_used", "direct+via_used"):
             mine.append((helper, "", ("seq", [L("h%s" % nm.lower()), ref])))
             items.append(R(helper))
+        if rstat == "via_chain":        # reached through three nested definitions
+            mine.append((helper + "3", "", ("seq", [L("c%s" % nm.lower()), ref])))
+            mine.append((helper + "2", "", ("seq", [L("b%s" % nm.lower()), R(helper + "3")])))
+            mine.append((helper + "1", "", ("alt", [R(helper + "2"), L("a%s" % nm.lower())])))
+            items.append(R(helper + "1"))
         if rstat == "via_unused":
             mine.append((helper, "", ("seq", [L("h%s" % nm.lower()), ref])))
         defs += mine
@@ -61,7 +66,7 @@ def build_corpus(tier, seed):
     nexh = 0
     for combo in combos:
         for sh in gen.SHELLS:
-            variants, defs, twin = structure(list(zip(["A", "B"], combo)), sh)
+            variants, defs, twin = structure(list(zip(["A", "PATH"], combo)), sh)
             grp = "%s|%s" % (len(cases), sh)
             for which, ds in (("full", defs), ("twin", twin)):
                 if which == "twin" and ds == defs:
@@ -94,7 +99,7 @@ def run(tier):
     cases, nexh = build_corpus(tier, seed)
     rc = c13.decide("C15", tier, cases, ("warning_set", "warning_repeated", "exit"), t0, seed,
                     rule="exhaustive: two nonterminals x {plain, @target, @other shell, undefined} x {referenced directly, inside a word, only from a used "
-                         "definition, only from an unused definition, nowhere} (also plain+@target, plain+@other; referenced twice) = 1764 structures x 4 shells (+ 1500 random structures over four names in "
+                         "definition, only from an unused definition, nowhere} (also plain+@target, plain+@other; referenced twice, through a chain of three definitions; the second name is PATH) = 2304 structures x 4 shells (+ 1500 random structures over four names in "
                          "thorough), each with its twin without the unreachable definitions; non-trivial = run with at least one warning line",
                     assumptions=["zsh scripts are written to a file named _cmd so that the file-name notice does not appear",
                                  "the twin grammar is derived by the generator by dropping the definitions it placed out of reach of the call variants"])
